@@ -3,14 +3,21 @@
 #include <stdio.h>
 #include <stdlib.h>
 #include <string.h>
+/* the harness's own allocations bypass the allocation ledger / fault injection of wrap.c
+ * (with ASan, __real_malloc is ASan's allocator: exact-size blocks keep their red zones) */
+void *__real_malloc(size_t); void *__real_calloc(size_t, size_t); void __real_free(void *);
+#define hmalloc(n) __real_malloc(n)
+#define hcalloc(a, b) __real_calloc(a, b)
+#define hfree(p) __real_free(p)
+static inline char *hstrdup(const char *s) { size_t l = strlen(s) + 1; char *d = __real_malloc(l); memcpy(d, s, l); return d; }
 /* hex helpers; "-" denotes the empty byte string */
 static inline int hexval(char c) { return c >= '0' && c <= '9' ? c - '0' : c >= 'a' && c <= 'f' ? c - 'a' + 10 : c >= 'A' && c <= 'F' ? c - 'A' + 10 : -1; }
 /* returns an exact-size heap block (ASan red zones on both sides); *n receives the length.
- * For the empty string a 1-byte block is returned and *n = 0 (malloc(0) may alias). */
+ * For the empty string a 1-byte block is returned and *n = 0 (hmalloc(0) may alias). */
 static inline unsigned char *unhex(const char *s, size_t *n) {
-    if (!s || !strcmp(s, "-")) { *n = 0; return malloc(1); }
+    if (!s || !strcmp(s, "-")) { *n = 0; return hmalloc(1); }
     size_t l = strlen(s) / 2;
-    unsigned char *b = malloc(l ? l : 1);
+    unsigned char *b = hmalloc(l ? l : 1);
     for (size_t i = 0; i < l; i++) b[i] = (unsigned char) (hexval(s[2 * i]) * 16 + hexval(s[2 * i + 1]));
     *n = l;
     return b;
